@@ -30,34 +30,12 @@ for mp in sorted(glob.glob(os.path.join(VERIF, 'seeded', '*', 'meta.json'))):
     summ = m.get('summary') or m.get('breaks', '')[:200]
     summ = re.sub(r'\s+', ' ', summ).replace('|', '/')
     out.append('| %s | %s | %s | %s |' % (m['id'], summ, ' '.join(m.get('detected_by', [])), ' '.join(m.get('missed_by', []))))
-out.append("""
-Nine of the 40 seeds were first **missed** by the check of their own property; each led to a stronger check (all 40 are
-caught now, and the unchanged tree still passes, also for VERIF_SEED 2, 3 and 4):
-* `C11-s1` - C11 built twins only from fragments written with the standard CRC. The generator now varies the writer and
-  reader value of `LIBERASURECODE_WRITE_LEGACY_CRC` (C12 varies the writer as well).
-* `C15-s1` - C15 used guard pages only for <= 2 erasures at the end of a history. It now also sweeps every flat-XOR table x
-  every erasure set below hd (and every RS/ISA-L shape with |E|=m) with aligned inputs ending exactly at the guard
-  page, start-flush, and unaligned; history tails use up to `tolerance` erasures.
-* `C13-s2` - dead descriptors were only produced on the calling thread. C13's grid has a new descriptor class "looked up
-  here, destroyed by another (joined) thread", and the C14/C16 history interpreter a step `xdestroy` doing the same.
-* `C16-s2` - histories never produced valid fragments that disagree on `orig_data_size` (a documented -EBADHEADER
-  path). New step `size_lie`: re-sealed small length deltas on 1-2 fragments, decode with and without forced checks;
-  only memory safety and leak freedom are demanded for it.
-* `C17-s2` - faults were only *injected* through the operation tables, which bypasses the back end's own failure
-  paths. The C17 workload now also contains naturally failing rebuilds (flat-XOR with hd..hd+1 fragments lost, every lost
-  index as destination) under the per-case LeakSanitizer check.
-* `C18-s2` - concurrent decodes lost only one fragment. The TSan workloads now draw erasure sets up to the tolerance and,
-  for flat-XOR hd=4, the all-data triples that no parity isolates (computed from the golden equations); a scenario in
-  which every thread decodes through one shared hd=4 descriptor is generated in a quarter of the cases.
-* `C04-s2` - a non-reentrant "speed-up" that only misbehaves under concurrent encodes of large payloads. C18's TSan
-  workloads used payloads of a few bytes; one draw in eight is now 1.4-2.8 KiB per fragment, and C04 gained a mode that
-  compares parity with the closed form while 2-6 threads encode at once.
-* `C10-s2` - the repair-time value of the legacy-CRC switch was always the encode-time value. It is now drawn
-  independently (`recenv`), and the expected CRC variant of a reconstructed fragment follows the repair-time value.
-* `C20-s2` - every C20 case used fresh buffers. A third of the cases now validate fragments in place first, then damage
-  (or heal) the *same* buffers before `decode(force=1)`.
-Entries under "tried, not caught" are other properties' checks run against the same change out of curiosity.
-""")
+metas = [json.load(open(mp)) for mp in sorted(glob.glob(os.path.join(VERIF, 'seeded', '*', 'meta.json')))]
+missed = [m for m in metas if m.get('first_missed_by_own_check')]
+out.append("\n%d of the %d seeds were first **missed** by the check of their own property; each led to a stronger check (all %d are\ncaught now by the check of their own property, and the unchanged tree still passes, also for VERIF_SEED 2, 3 and 4):" % (len(missed), len(metas), len(metas)))
+for m in missed:
+    out.append("* `%s` - %s" % (m['id'], m.get('strengthening', '')))
+out.append("\nEntries under \"tried, not caught\" are other properties' checks run against the same change out of curiosity.\n")
 s = open(os.path.join(VERIF, 'DESIGN.md')).read()
 if '\n## 11. Sensitivity' in s:
     s = s[:s.index('\n## 11. Sensitivity')]
